@@ -136,7 +136,8 @@ class LinearFilter(LinearFilterProperties):
     yield self.dendict
 
   def __hash__(self):
-    return hash(tuple(self.numdict) + tuple(self.dendict))
+    # Sorted: fractional powers are kept in creation order by the polynomials
+    return hash(tuple(sorted(self.numdict)) + tuple(sorted(self.dendict)))
 
   def __call__(self, seq, memory=None, zero=0.):
     """
